@@ -52,7 +52,9 @@ PodSeqOf2(pods, apiPods) == LET S == {o \in Ords : pods[o].present} IN
                             SetToSortSeq({MkPodRec(o, pods[o], apiPods) : o \in S}, LAMBDA a, b : a.ord < b.ord)
 PodSeqOf(pods) == PodSeqOf2(pods, pods)
 
-SetRecOf(s) == [name |-> NAME, cached |-> TRUE, replicas |-> s.replicas, slots |-> s.slots, policy |-> s.policy, strat |-> s.strat,
+SetRecOf(s) == [name |-> NAME, cached |-> TRUE, replicas |-> s.replicas, slots |-> s.slots, policy |-> s.policy,
+                \* "RollingUpdateBare": type RollingUpdate without the rollingUpdate block (a spec that was not defaulted)
+                strat |-> IF s.strat = "RollingUpdateBare" THEN "RollingUpdate" ELSE s.strat,
                 ruBlock |-> s.strat = "RollingUpdate", partPresent |-> s.strat = "RollingUpdate", part |-> s.part,
                 tmpl |-> s.tmpl, paused |-> s.paused, deleting |-> s.deleting, histLimit |-> s.histLimit, selectorOK |-> TRUE,
                 gen |-> s.gen, status |-> s.status, claims |-> IF s.nclaims = 1 THEN <<"c0">> ELSE <<>>]
@@ -158,7 +160,7 @@ Guard(s, a) ==
     [] a.act = "FinishTerminating" -> pod.present /\ pod.term
     [] a.act = "PodUnready"        -> pod.present /\ pod.phase = "Running" /\ pod.ready
     [] a.act = "PodFail"           -> pod.present /\ pod.phase \in {"Pending", "Running"}
-                                      /\ a.o \in Desired(api_.set.replicas, api_.set.slots)   \* the premise of C02
+                                      /\ (a.o \in Desired(api_.set.replicas, api_.set.slots) \/ api_.set.policy = "Parallel")   \* the premise of C02
     [] a.act = "SetReplicas"       -> ~api_.set.deleting /\ a.r # api_.set.replicas /\ InRange(a.r, api_.set.slots)
     [] a.act = "SetSlots"          -> ~api_.set.deleting /\ a.slots # api_.set.slots /\ InRange(api_.set.replicas, a.slots)
     [] a.act = "ScaleInAt"         -> ~api_.set.deleting /\ a.k \in Desired(api_.set.replicas, api_.set.slots) /\ api_.set.replicas > 0
@@ -261,7 +263,8 @@ GC         == (\E o \in Ords : GCOrphanPod(o)) \/ (\E k \in 1..Len(api.revs) : G
 Scramble(o) == /\ lvl = o /\ o <= MaxOrd
                /\ \E p \in PodStates(api.revs) :
                      /\ GoodPod(p)
-                     /\ (p.phase = "Failed" => o \in Desired(api.set.replicas, api.set.slots))   \* the fairness premise of C02
+                     \* the fairness premise of C02: a Failed pod outside the desired set blocks an OrderedReady set by design
+                     /\ (p.phase = "Failed" => (o \in Desired(api.set.replicas, api.set.slots) \/ api.set.policy = "Parallel"))
                      \* a pod of a set with a claim template has its claim; the claim of an absent pod may be left from earlier
                      /\ \E cl \in (IF api.set.nclaims = 0 THEN {FALSE} ELSE IF p.present THEN {TRUE} ELSE BOOLEAN) :
                         LET a == [act |-> "Scramble", o |-> o, pod |-> p, claim |-> cl] s2 == Effect(Here, a) IN
@@ -281,7 +284,7 @@ InitSets(rs) ==
 BlankSet == [replicas |-> 0, slots |-> {}, policy |-> "OrderedReady", strat |-> "RollingUpdate", part |-> 0, tmpl |-> "t0", paused |-> FALSE,
              deleting |-> FALSE, histLimit |-> 1, gen |-> 1, rv |-> 1, nclaims |-> 0,
              status |-> [obsGen |-> 0, replicas |-> 0, ready |-> 0, current |-> 0, updated |-> 0, collisions |-> 0, curRev |-> "", updRev |-> ""]]
-GoodSet(s) == (s.strat = "OnDelete" => s.part = 0) /\ Desired(s.replicas, s.slots) \subseteq Ords    \* no ordinals beyond MaxOrd
+GoodSet(s) == (s.strat # "RollingUpdate" => s.part = 0) /\ Desired(s.replicas, s.slots) \subseteq Ords    \* no ordinals beyond MaxOrd
 
 \* InitMode "empty": every spec over an empty cluster is an initial state.
 \* InitMode "any":   one blank initial state; the first step (Setup) picks the spec and the revision history, the next
@@ -329,7 +332,7 @@ PodsRightS(s) ==
   /\ DesiredOf(s) \subseteq Ords
   /\ \A o \in DesiredOf(s) : LET p == a.pods[o] IN
         /\ p.phase = "Running" /\ p.ready /\ ~p.term /\ p.owner = "self"
-        /\ (a.set.strat = "RollingUpdate" /\ o >= a.set.part) => TmplOfRevS(s, p.rev) = a.set.tmpl
+        /\ (a.set.strat \in {"RollingUpdate", "RollingUpdateBare"} /\ o >= a.set.part) => TmplOfRevS(s, p.rev) = a.set.tmpl
 CaughtUpS(s) == SameSet(s.cache.set, s.api.set) /\ s.cache.set.rv = s.api.set.rv /\ s.cache.pods = s.api.pods /\ s.cache.pvcs = s.api.pvcs
 NoWritesS(s) == LET r == Sync(SnapS(s, <<>>)) IN r.res = "ok" /\ \A k \in 1..Len(r.calls) : ~IsWrite(r.calls[k])
 
@@ -417,7 +420,7 @@ Fairness == /\ WF_vars(Setup) /\ \A o \in Ords : WF_vars(Scramble(o))
             /\ \A k \in 1..4 : WF_vars(GCOrphanRev(k))
 Spec == Init /\ [][Next]_vars /\ Fairness
 \* the excluded case: a pod that can never become Ready and that the controller is not obliged to replace
-Stuck == \E o \in Ords : <>[](api.pods[o].present /\ api.pods[o].phase = "Failed" /\ o \notin DesiredOf(Here))
+Stuck == \E o \in Ords : <>[](api.pods[o].present /\ api.pods[o].phase = "Failed" /\ o \notin DesiredOf(Here) /\ api.set.policy = "OrderedReady")
 Converges == <>[]Converged \/ Stuck
 
 \* C16 end to end: with reconciles driven by the work queue alone the system still converges (Converges), and the queue
